@@ -2,7 +2,7 @@
    [run entry args] evaluates one modelled entry point on byte-string arguments and
    returns the projected observables as byte strings.  Integers travel as 8-byte
    big-endian two's complement. *)
-From Model Require Import Bytes Entries Prim.
+From Model Require Import Bytes Entries Prim Tables ExtCrypto Cert KAC Mapping Sig LS RI.
 Open Scope N_scope.
 
 Definition argZ (b : bytes) : Z := wrap64 (Z.of_N (be_decode b)).
@@ -57,9 +57,66 @@ Definition run_prim (e : N) (a : list bytes) : option (res (list bytes)) :=
   else if e =? E_StrIsValid then Some (Ok [outB (str_is_valid a0)])
   else None.
 
-(* unknown entry: reported as a distinguished panic-free error with marker *)
+Definition optb (o : option bytes) : bytes := match o with Some b => b | None => [] end.
+Definition kac_obs (r : res (kac * bytes)) : res (list bytes) :=
+  do p <- r; do b <- kac_bytes (fst p);
+  Ok [b; snd p; optb (k_pub (fst p)); k_pad (fst p); optb (k_spk (fst p))].
+Fixpoint args_to_kv (a : list bytes) : list (bytes * bytes) :=
+  match a with
+  | k :: v :: t => (k, v) :: args_to_kv t
+  | _ => []
+  end.
+Definition optZ (o : option Z) : bytes := match o with Some v => outZ v | None => [255%N] end.
+
+Definition run_struct (e : N) (a : list bytes) : option (res (list bytes)) :=
+  let a0 := arg 0 a in let a1 := arg 1 a in
+  if e =? E_ReadCertificate then Some (
+    do p <- read_certificate a0; do b <- cert_bytes (fst p); do x <- cert_excess_bytes (fst p);
+    Ok [b; snd p; cert_raw_bytes (fst p); x])
+  else if e =? E_NewCertificateWithType then Some (do c <- new_certificate_with_type (argZ a0) a1; one (cert_bytes c))
+  else if e =? E_NewKeyCertificate then Some (
+    do p <- new_key_certificate a0; do b <- keycert_bytes (fst p);
+    Ok [b; snd p; kc_spk (fst p); kc_cpk (fst p)])
+  else if e =? E_NewKeyCertificateWithTypes then Some (do k <- new_key_certificate_with_types (argZ a0) (argZ a1); one (keycert_bytes k))
+  else if e =? E_ReadKeysAndCert then Some (kac_obs (read_keys_and_cert a0))
+  else if e =? E_ReadKACElgEd25519 then Some (kac_obs (read_kac_elg_ed25519 a0))
+  else if e =? E_ReadKACX25519Ed25519 then Some (kac_obs (read_kac_x25519_ed25519 a0))
+  else if e =? E_ReadDestination then Some (kac_obs (read_destination a0))
+  else if e =? E_ReadRouterIdentity then Some (kac_obs (read_router_identity a0))
+  else if e =? E_ReadSignature then Some (do p <- read_signature a0 (argZ a1); Ok [sig_bytes (fst p); snd p])
+  else if e =? E_NewSignatureFromBytes then Some (do s <- new_signature_from_bytes a0 (argZ a1); Ok [sig_bytes s])
+  else if e =? E_ReadOfflineSignature then Some (
+    do p <- read_offline_signature a0 (argN a1); Ok [off_bytes (fst p); snd p; off_signed_data (fst p)])
+  else if e =? E_ReadLease then Some (pair2 (read_lease a0))
+  else if e =? E_ReadLease2 then Some (pair2 (read_lease2 a0))
+  else if e =? E_ReadMapping then Some (
+    match read_mapping a0 with
+    | None => Panic
+    | Some (m, r, errs) =>
+        Ok ([outB (negb (embedded_mapping_ok errs)); mapping_data m; r] ++ flat_map (fun p => [fst p; snd p]) (map_values m))
+    end)
+  else if e =? E_GoMapToMapping then Some (do m <- go_map_to_mapping (args_to_kv a); Ok [mapping_data m])
+  else if e =? E_ReadRouterAddress then Some (do p <- read_router_address a0; Ok [router_address_bytes (fst p); snd p])
+  else if e =? E_ReadRouterInfo then Some (do p <- read_router_info a0; do b <- router_info_bytes (fst p); Ok [b; snd p])
+  else if e =? E_ReadLeaseSet then Some (do l <- read_lease_set a0; one (lease_set_bytes l))
+  else if e =? E_ReadLeaseSet2 then Some (do p <- read_lease_set2 a0; do b <- lease_set2_bytes (fst p); Ok [b; snd p])
+  else if e =? E_ReadMetaLeaseSet then Some (do p <- read_meta_lease_set a0; do b <- meta_lease_set_bytes (fst p); Ok [b; snd p])
+  else if e =? E_ReadEncryptedLeaseSet then Some (do p <- read_encrypted_lease_set a0; Ok [els_bytes (fst p); snd p])
+  else if e =? E_ReadSessionKey then Some (pair2 (take 32 a0))
+  else if e =? E_ReadSessionTag then Some (pair2 (take 32 a0))
+  else if e =? E_ReadECIESSessionTag then Some (pair2 (take 8 a0))
+  (* size/deny lookups on one 16-bit code (C09, C10 translation validation) *)
+  else if e =? E_KCSizes then Some (let t := argZ a0 in
+    Ok [optZ (kc_sig_size t); optZ (kc_spk_size t); optZ (kc_crypto_size t); optZ (kc_crypto_pub_sizes t); optZ (kc_sig_pub_sizes t)])
+  else if e =? E_SigSize then Some (Ok [optZ (sig_length (argZ a0))])
+  else if e =? E_OffSizes then Some (let t := argZ a0 in Ok [outZ (off_spk_size t); outZ (off_sig_size t)])
+  else if e =? E_DestAllowed then Some (Ok [outB (negb (dest_crypto_denied (argZ a1)) && negb (dest_signing_denied (argZ a0)))])
+  else if e =? E_RIAllowed then Some (Ok [outB (negb (ri_signing_denied (argZ a0)) && negb (ri_crypto_denied (argZ a1)))])
+  else None.
+
+(* unknown entry: reported with a distinguished marker *)
 Definition run (e : N) (a : list bytes) : res (list bytes) :=
   match run_prim e a with
   | Some r => r
-  | None => Ok [[255; 255; 255]]
+  | None => match run_struct e a with Some r => r | None => Ok [[255; 255; 255]] end
   end.
